@@ -308,13 +308,14 @@ Proof.
 Qed.
 
 (* struct and interface names share one namespace and are unique over all loaded files *)
-Lemma gather_nodes_types_fresh ns : forall st st',
-  gather_nodes st ns = Ok st' ->
+Lemma gather_nodes_types_fresh b ns : forall st st',
+  gather_nodes_gen b st ns = Ok st' ->
   forall k, has_key k (st_structs st) = true -> has_key k (st_structs st') = true.
 Proof.
   induction ns as [|n ns IH]; intros st st' H k Hk; cbn in H; [inversion H; subst; exact Hk|].
-  destruct (gather_node st n) as [st1| | |] eqn:E; cbn in H; try discriminate.
-  apply (IH _ _ H). destruct n as [p|c|s|i]; cbn in E.
+  destruct (gather_node_gen b st n) as [st1| | |] eqn:E; cbn in H; try discriminate.
+  apply (IH _ _ H). unfold gather_node_gen in E. destruct (b && cross_kind st n); [discriminate|].
+  destruct n as [p|c|s|i]; cbn in E.
   - inversion E; subst; exact Hk.
   - destruct (mem_str _ _); inversion E; subst; exact Hk.
   - destruct (has_key (s_name s) (st_structs st)); inversion E; subst. cbn. unfold has_key in *. cbn.
@@ -351,11 +352,12 @@ Proof. split; vm_compute; reflexivity. Qed.
 Theorem entry_points_agree md files : front_gen true Lib md files = front_gen true Cli md files.
 Proof. unfold front_gen. destruct files; reflexivity. Qed.
 
-(* F22: a constant may share its name with a struct *)
-Example const_and_struct_same_name_accepted :
+(* F22: the pinned upstream symbol table let a constant share its name with a struct *)
+Example const_and_struct_same_name_accepted_upstream :
   let files := [mkAst "m.idl" [NConst (mkC "X" U8 "1"); NStruct (mkS "X" [mkF "a" (TPrim U8) 1%N])]] in
-  is_ok (front Cli Debug files) = true /\ rule_uniq_toplevel files = false.
-Proof. split; vm_compute; reflexivity. Qed.
+  is_ok (gather_files_gen false st_empty files) = true /\ is_ok (gather_files_gen true st_empty files) = false /\
+  rule_uniq_toplevel files = false.
+Proof. repeat split; vm_compute; reflexivity. Qed.
 
 (* F25: declarations of included files are not validated: duplicate parameters of an
    inherited method, a misaligned struct used only as a parameter type *)
@@ -399,8 +401,8 @@ Definition type_names (ns : list node) : list string :=
 Definition const_names (ns : list node) : list string :=
   flat_map (fun n => match n with NConst c => [c_name c] | _ => [] end) ns.
 
-Lemma gather_nodes_names ns : forall st st',
-  gather_nodes st ns = Ok st' ->
+Lemma gather_nodes_names b ns : forall st st',
+  gather_nodes_gen b st ns = Ok st' ->
   NoDup (map fst (st_structs st)) -> NoDup (st_consts st) ->
   map fst (st_structs st') = rev (type_names ns) ++ map fst (st_structs st) /\
   st_consts st' = rev (const_names ns) ++ st_consts st /\
@@ -408,7 +410,8 @@ Lemma gather_nodes_names ns : forall st st',
 Proof.
   induction ns as [|n ns IH]; intros st st' H N1 N2; cbn in H.
   - inversion H; subst. repeat split; assumption.
-  - destruct (gather_node st n) as [st1| | |] eqn:E; cbn in H; try discriminate.
+  - destruct (gather_node_gen b st n) as [st1| | |] eqn:E; cbn in H; try discriminate.
+    unfold gather_node_gen in E. destruct (b && cross_kind st n); [discriminate|].
     destruct n as [p|c|s|i]; cbn in E; cbn [type_names const_names flat_map app rev].
     + inversion E; subst. apply (IH _ _ H N1 N2).
     + destruct (mem_str (c_name c) (st_consts st)) eqn:EM; inversion E; subst.
@@ -429,8 +432,8 @@ Proof.
       repeat split; try assumption. fold (type_names ns). rewrite A, <- app_assoc. reflexivity.
 Qed.
 
-Lemma gather_files_names fs : forall st st',
-  gather_files st fs = Ok st' ->
+Lemma gather_files_names b fs : forall st st',
+  gather_files_gen b st fs = Ok st' ->
   NoDup (map fst (st_structs st)) -> NoDup (st_consts st) ->
   map fst (st_structs st') = rev (flat_map (fun a => type_names (a_nodes a)) fs) ++ map fst (st_structs st) /\
   st_consts st' = rev (flat_map (fun a => const_names (a_nodes a)) fs) ++ st_consts st /\
@@ -438,8 +441,8 @@ Lemma gather_files_names fs : forall st st',
 Proof.
   induction fs as [|a fs IH]; intros st st' H N1 N2; cbn in H.
   - inversion H; subst. repeat split; assumption.
-  - destruct (gather_nodes st (a_nodes a)) as [st1| | |] eqn:E; cbn in H; try discriminate.
-    destruct (gather_nodes_names _ _ _ E N1 N2) as (A & B & C & D).
+  - destruct (gather_nodes_gen b st (a_nodes a)) as [st1| | |] eqn:E; cbn in H; try discriminate.
+    destruct (gather_nodes_names _ _ _ _ E N1 N2) as (A & B & C & D).
     destruct (IH _ _ H C D) as (A' & B' & C' & D').
     cbn [flat_map]. rewrite !rev_app_distr, <- !app_assoc, <- A, <- B.
     repeat split; assumption.
@@ -480,10 +483,84 @@ Theorem front_names_unique e md files mir :
   front e md files = Ok mir -> rule_uniq_types files = true /\ rule_uniq_consts files = true.
 Proof.
   intro H. destruct (front_inv _ _ _ _ H) as (main & rest & st & -> & G & _).
-  destruct (gather_files_names _ _ _ G (NoDup_nil _) (NoDup_nil _)) as (A & B & C & D).
+  destruct (gather_files_names _ _ _ _ G (NoDup_nil _) (NoDup_nil _)) as (A & B & C & D).
   cbn in A, B. rewrite app_nil_r in A, B. split.
   - apply nodup_str_NoDup. eapply Permutation_NoDup; [apply all_type_names_perm|].
     rewrite A in C. apply NoDup_rev in C. now rewrite rev_involutive in C.
   - apply nodup_str_NoDup. unfold rule_uniq_consts. rewrite <- const_names_eq.
     rewrite B in D. apply NoDup_rev in D. now rewrite rev_involutive in D.
+Qed.
+
+(* ---- one namespace for types and constants (the repaired symbol table) ---- *)
+
+Definition tables_disjoint (st : symtab) : Prop :=
+  forall k, In k (st_consts st) -> ~ In k (map fst (st_structs st)).
+
+Lemma gather_node_disjoint st n st' :
+  gather_node_gen true st n = Ok st' -> tables_disjoint st -> tables_disjoint st'.
+Proof.
+  unfold gather_node_gen. cbn [andb]. destruct (cross_kind st n) eqn:EX; [discriminate|].
+  intros E D. destruct n as [p|c|s|i]; cbn [gather_node0 cross_kind] in *.
+  - inversion E; subst; exact D.
+  - destruct (mem_str (c_name c) (st_consts st)); inversion E; subst. intros k [<-|Hk]; cbn.
+    + intro Hin. apply has_key_In in Hin. congruence.
+    + now apply D.
+  - destruct (has_key (s_name s) (st_structs st)); inversion E; subst. intros k Hk [<-|Hin]; cbn in *.
+    + apply mem_str_In in Hk. congruence.
+    + now apply (D k).
+  - destruct (has_key (i_name i) (st_structs st)); try discriminate.
+    destruct (has_key (i_name i) (st_ifaces st)); inversion E; subst. intros k Hk [<-|Hin]; cbn in *.
+    + apply mem_str_In in Hk. congruence.
+    + now apply (D k).
+Qed.
+
+Lemma gather_nodes_disjoint ns : forall st st',
+  gather_nodes_gen true st ns = Ok st' -> tables_disjoint st -> tables_disjoint st'.
+Proof.
+  induction ns as [|n ns IH]; intros st st' H D; cbn [gather_nodes_gen] in H; [inversion H; subst; exact D|].
+  destruct (gather_node_gen true st n) as [st1| | |] eqn:E; cbn [obind] in H; try discriminate.
+  apply (IH _ _ H). now apply (gather_node_disjoint _ _ _ E).
+Qed.
+
+Lemma gather_files_disjoint fs : forall st st',
+  gather_files_gen true st fs = Ok st' -> tables_disjoint st -> tables_disjoint st'.
+Proof.
+  induction fs as [|a fs IH]; intros st st' H D; cbn [gather_files_gen] in H; [inversion H; subst; exact D|].
+  destruct (gather_nodes_gen true st (a_nodes a)) as [st1| | |] eqn:E; cbn [obind] in H; try discriminate.
+  apply (IH _ _ H). now apply (gather_nodes_disjoint _ _ _ E).
+Qed.
+
+Lemma NoDup_app_disjoint {A} (l1 l2 : list A) :
+  NoDup l1 -> NoDup l2 -> (forall k, In k l2 -> ~ In k l1) -> NoDup (l1 ++ l2).
+Proof.
+  induction l1 as [|a l1 IH]; intros N1 N2 D; [exact N2|]. cbn.
+  inversion N1 as [|x l Hx Hl]; subst. constructor.
+  - intro Hin. apply in_app_or in Hin. destruct Hin as [Hin|Hin]; [contradiction|].
+    apply (D a Hin). now left.
+  - apply IH; [exact Hl | exact N2|]. intros k Hk Hin. apply (D k Hk). now right.
+Qed.
+
+Theorem gathered_toplevel_unique files st :
+  gather_files_gen true st_empty files = Ok st -> rule_uniq_toplevel files = true.
+Proof.
+  intro G.
+  destruct (gather_files_names _ _ _ _ G (NoDup_nil _) (NoDup_nil _)) as (A & B & C & D).
+  pose proof (gather_files_disjoint _ _ _ G (fun k (H : In k []) => match H with end)) as DJ.
+  cbn in A, B. rewrite app_nil_r in A, B.
+  apply nodup_str_NoDup. unfold rule_uniq_toplevel. rewrite app_assoc.
+  eapply Permutation_NoDup.
+  - apply Permutation_app; [apply all_type_names_perm | rewrite <- const_names_eq; apply Permutation_refl].
+  - apply NoDup_app_disjoint.
+    + rewrite A in C. apply NoDup_rev in C. now rewrite rev_involutive in C.
+    + rewrite B in D. apply NoDup_rev in D. now rewrite rev_involutive in D.
+    + intros k Hk Hin. apply (DJ k).
+      * rewrite B. now apply -> in_rev.
+      * rewrite A. now apply -> in_rev.
+Qed.
+
+Theorem front_toplevel_unique e md files mir :
+  symbols_one_namespace = true -> front e md files = Ok mir -> rule_uniq_toplevel files = true.
+Proof.
+  intros F H. destruct (front_inv _ _ _ _ H) as (main & rest & st & -> & G & _).
+  unfold gather_files in G. rewrite F in G. exact (gathered_toplevel_unique _ _ G).
 Qed.
